@@ -138,6 +138,28 @@ Proof.
   unfold s1. cbn [rows]. rewrite <- app_assoc. reflexivity.
 Qed.
 
+Lemma range_blk_nonempty w nb base : range_blk w nb base <> [].
+Proof.
+  unfold range_blk. destruct (Nat.even nb).
+  - unfold range_even_blk. destruct nb; [discriminate|]. destruct (range_rows _ _); discriminate.
+  - destruct (range_even_blk _ _ _); discriminate.
+Qed.
+
+Lemma canon_blk_closed high low N base : closed_block (canon_blk high low N base).
+Proof.
+  unfold canon_blk. rewrite !app_assoc.
+  apply closed_block_app; [apply range_blk_nonempty|apply range_blk_closed].
+Qed.
+
+Lemma canon_blk_nonempty high low N base : canon_blk high low N base <> [].
+Proof. unfold canon_blk. cbn [app]. discriminate. Qed.
+
+Lemma split_blk_closed input low N base : closed_block (split_blk input low N base).
+Proof.
+  unfold split_blk. rewrite !app_assoc.
+  apply closed_block_app; [apply canon_blk_nonempty|apply canon_blk_closed].
+Qed.
+
 (* ---------------- arithmetic facts about r - 1 = r_high * 2^N + r_low ---------------- *)
 Local Open Scope Z_scope.
 
